@@ -123,7 +123,7 @@ func TestC06Order(t *testing.T) {
 			}
 		}
 		acts := map[string]func(*rapid.T){}
-		for _, k := range []string{"create", "create2", "mkdir", "symlink", "write", "setattr", "remove", "remove2", "rmdir", "rename", "rename2",
+		for _, k := range []string{"create", "create2", "mkdir", "symlink", "write", "setattr", "remove", "remove2", "rmdir", "rename", "rename2", "movedir",
 			"lookup", "readdir", "readdirplus", "misc", "restart"} {
 			acts[k] = wrap(base[k])
 		}
